@@ -85,6 +85,18 @@ def poles():
     return [[a, (4, -6), b, (4, -3)], [a, (4, -3), b], [a, b, (4, 3)], [a, (4, 3), b, (4, 6)]]
 
 
+def lens():
+    """a diamond cell D squeezed between two neighbours L, R that also touch each other above and below it: the interfaces
+    D|L and D|R join the SAME pair of junctions, L and R share two interfaces; a cap on top and one below make the outer
+    ends of L|R three-cell junctions"""
+    D = [(0, 2), (-1, 0), (0, -2), (1, 0)]
+    L = [(0, 2), (0, 4), (-4, 4), (-4, -4), (0, -4), (0, -2), (-1, 0)]
+    R = [(0, 2), (1, 0), (0, -2), (0, -4), (4, -4), (4, 4), (0, 4)]
+    T = [(-4, 4), (0, 4), (4, 4), (4, 7), (-4, 7)]
+    B = [(-4, -4), (-4, -7), (4, -7), (4, -4), (0, -4)]
+    return [D, L, R, T, B]
+
+
 TISSUES = {
     "hexflower": (hex_flower, "7 hexagons; sub-tissues include the ring with a hole"),
     "hex33": (lambda: hex_patch(3, 3), "3x3 affine hexagonal patch"),
@@ -92,6 +104,7 @@ TISSUES = {
     "squares33": (lambda: squares(3, 3), "square grid: four-fold junctions"),
     "irregular": (irregular, "irregular 15-cell tissue with triangles and quadrilaterals"),
     "hex43": (lambda: hex_patch(4, 3), "4x3 affine hexagonal patch (thorough tier)"),
+    "lens5": (lens, "a two-junction (lens) cell between two neighbours that touch each other: two interfaces join one junction pair"),
 }
 
 
